@@ -18,6 +18,7 @@ type replayOut struct {
 	Observed  map[string]string `json:"observed"`
 	Panic     string            `json:"panic"`
 	Tags      []string          `json:"tags"`
+	Notes     map[string]string `json:"notes"`
 }
 
 // TestReplay runs one harness natively (real keeper, real cosmossdk.io/math, real codec)
@@ -54,6 +55,7 @@ func TestReplay(t *testing.T) {
 	out.BadAssume = nd.Res.BadAssume
 	out.Observed = nd.Res.Observed
 	out.Tags = nd.Res.Tags
+	out.Notes = nd.Res.Notes
 	b, _ := json.Marshal(out)
 	fmt.Printf("REPLAY-RESULT %s\n", b)
 }
